@@ -40,6 +40,10 @@ func LazyEnter(msg unsafe.Pointer, num int32) {}
 // before it is published.
 func LazyDecoded(msg unsafe.Pointer, num int32, mine unsafe.Pointer) {}
 
+// LazyEntry is called after index entry k (of n) of the field was merged into
+// the fresh object mine, which must not be published before entry n-1.
+func LazyEntry(msg unsafe.Pointer, num int32, mine unsafe.Pointer, k, n int) {}
+
 // LazyPublished is called after the publishing compare-and-swap; cell is the
 // value of the field pointer read back afterwards.
 func LazyPublished(msg unsafe.Pointer, num int32, mine, cell unsafe.Pointer) {}
